@@ -320,7 +320,7 @@ class Parsers:
         if isinstance(data, CommentedMap):
             for i, k in [
                 (idx, key) for idx, key in enumerate(data.keys())
-                if isinstance(key, TaggedScalar)
+                if isinstance(key, (TaggedScalar, datetime, date))
             ]:
                 unwrapped_key = Parsers.jsonify_yaml_data(k)
                 data.insert(i, unwrapped_key, data.pop(k))
